@@ -27,7 +27,7 @@ func init() {
 			"requires the verif-tagged fid-table hook",
 		},
 		Shards:   shards(8, 16),
-		Timeout:  timeouts(5*time.Minute, 30*time.Minute),
+		Timeout:  timeouts(12*time.Minute, 90*time.Minute),
 		MinEvals: 1000,
 		Required: []string{"path:clunk", "path:remove", "path:consumed-by-create", "path:replaced-by-inplace-walk", "path:stop", "single_fault_runs", "pair_fault_runs", "stop_prefix_runs", "faults_that_hit", "queued_pair_runs", "served_shutdown_runs", "entries_bound_after_cancel"},
 		Run:      runC13,
